@@ -71,6 +71,7 @@ fn new_tr<'a>(idx: &'a Index, reg: &'a Registry, cur: &'a FnEntry) -> Tr<'a> {
         betas: Vec::new(),
         mut_ref_params: Vec::new(),
         ptr_alias: HashMap::new(),
+        ptr_array_len: HashMap::new(),
         pattern_generics: Vec::new(),
         type_subst: HashMap::new(),
         mut_self: false,
